@@ -1931,8 +1931,8 @@ impl TestTextSelection for TextSelection {
                 }
                 if !allow_whitespace {
                     Some(self.end) == leftmost
-                } else if let Some(leftmost) = leftmost {
-                    let l = self.end - leftmost;
+                } else if let Some(leftmost) = leftmost.filter(|leftmost| *leftmost >= self.end) {
+                    let l = leftmost - self.end;
                     if l == 0 {
                         true
                     } else {
@@ -1964,8 +1964,8 @@ impl TestTextSelection for TextSelection {
                 }
                 if !allow_whitespace {
                     Some(self.begin) == rightmost
-                } else if let Some(rightmost) = rightmost {
-                    let l = rightmost - self.begin;
+                } else if let Some(rightmost) = rightmost.filter(|rightmost| self.begin >= *rightmost) {
+                    let l = self.begin - rightmost;
                     if l == 0 {
                         true
                     } else {
